@@ -263,6 +263,9 @@ def build():
     add(Spec("DecisionTreeLogisticRegression",
              [lambda: mm.DecisionTreeLogisticRegression(),
               lambda: mm.DecisionTreeLogisticRegression(max_depth=3, fit_improve_algo="none", min_samples_leaf=5),
+              # thresholds given as floats (the documentation speaks of fractions of the number of samples)
+              lambda: mm.DecisionTreeLogisticRegression(max_depth=4, min_samples_leaf=0.1, min_samples_split=0.25,
+                                                        fit_improve_algo="none"),
               lambda: mm.DecisionTreeLogisticRegression(estimator=LogisticRegression(C=0.3), gamma=2.0, p1p2=0.2,
                                                         fit_improve_algo="intercept_sort_always")],
              clf_data, clf_str, methods=["predict", "predict_proba", "decision_path"],
@@ -391,7 +394,8 @@ def build():
     add(Spec("CategoriesToIntegers",
              [lambda: mm.CategoriesToIntegers(), lambda: mm.CategoriesToIntegers(columns=["k0"], single=True),
               lambda: mm.CategoriesToIntegers(skip_errors=True, remove=["k0=a"]),
-              lambda: mm.CategoriesToIntegers(columns="k1")],
+              lambda: mm.CategoriesToIntegers(columns="k1"),
+              lambda: mm.CategoriesToIntegers(columns=["k0", "k1"], skip_errors=True)],
              frame_data, lambda r: (lambda D: {"X": D["X"].rename(columns={"x1": "k1"})[["k0", "k1", "x0"]]})(
                  frame_data(r, n=12, cats=("u", "v", "w", "zz"), ncat=1, nnum=2)), kind="frame",
              methods=["transform"], rowwise=["transform"],
